@@ -8,23 +8,91 @@ use crate::sys::*;
 use pvcore::refcodec::*;
 
 pub fn check(tier: Tier) -> Check {
-    let parts = vec![Part::new(
-        "C12/sweep",
-        json!({"max_payload": tier.pick(48, 96)}),
-        0,
-        tier.pick(45, 600),
-    )];
+    let parts = vec![
+        Part::new("C12/sweep", json!({"max_payload": tier.pick(48, 96)}), 0, tier.pick(45, 600)),
+        // the limit in force is the one announced (or not) by the CONNACK of the *current* connection
+        Part::new("C12/reconnect", json!({}), 0, tier.pick(45, 300)),
+    ];
     Check {
         also_rel: false,
         property: "C12",
         level: "exploration",
-        rule: "all request kinds (publish QoS 0/1/2 with payload 0..max and topic 1..3 bytes, subscribe / unsubscribe with 1-2 filters and 0-1 user property, ping, disconnect with / without reason string) x M in {L-1, L, L+1, 1, 2^32-1, absent} x Receive Maximum in {1, absent} x CONNACK {bare, carrying six other properties around them} x connection flavour {bare, every CONNECT option set incl. the client's own Maximum Packet Size 16 and Session Present = 1, a CONNACK received through authorize()}, L computed by the reference encoder; issued on an idle client and with a ping, a subscribe and an unsubscribe of other callers outstanding (their acknowledgements must still reach them); followed by a QoS 1 publish, its PUBACK, an accepted subscribe, and an inbound PUBLISH naming the rejected subscription's would-be identifier; non-trivial = a request was refused for size".into(),
+        rule: "all request kinds (publish QoS 0/1/2 with payload 0..max and topic 1..3 bytes, subscribe / unsubscribe with 1-2 filters and 0-1 user property, ping, disconnect with / without reason string) x M in {L-1, L, L+1, 1, 2^32-1, absent} x Receive Maximum in {1, absent} x CONNACK {bare, carrying six other properties around them} x connection flavour {bare, every CONNECT option set incl. the client's own Maximum Packet Size 16 and Session Present = 1, a CONNACK received through authorize()}, L computed by the reference encoder; issued on an idle client and with a ping, a subscribe and an unsubscribe of other callers outstanding (their acknowledgements must still reach them); followed by a QoS 1 publish, its PUBACK, an accepted subscribe, and an inbound PUBLISH naming the rejected subscription's would-be identifier; (C12/reconnect) one Context connected twice (end-of-stream, set_up on a fresh transport, connect, run): first CONNACK with M1, second with M2, each in {absent, 16, 45, 46, 47, 200}, requests of 46 bytes and of other sizes on both connections - the limit in force is the current connection's; the length L of a SUBSCRIBE depends on the subscription identifier the library will choose, so L is learned from a probe execution of the same history without M (identifier allocation is deterministic in the history) instead of assuming the identifiers count up from 1; non-trivial = a request was refused for size".into(),
         assumptions: vec![],
         parts,
     }
 }
 
+fn reconnect(name: String, params: Value) -> Scenario {
+    Box::new(move |chz, ex| {
+        let ms: [Option<u32>; 6] = [None, Some(16), Some(45), Some(46), Some(47), Some(200)];
+        let m1 = ms[chz.choose(ms.len())];
+        let m2 = ms[chz.choose(ms.len())];
+        let traffic1 = chz.choose(2) == 1;
+        let kind = chz.choose(4);
+        let mut sys = Sys::new("C12", &name, chz);
+        sys.params = params.clone();
+        sys.m.check_client_acks = false;
+        sys.auto_exit = false;
+        let mp = |m: Option<u32>| m.map(|v| vec![Prop::u32(P_MAXIMUM_PACKET_SIZE, v)]).unwrap_or_default();
+        // 46 bytes: 1 + 1 + (2 + 1) + 2 (packet id) + 1 (property length) + 38
+        let p46 = |q: u8| OpSpec::Publish(PublishSpec::simple(q, "t", &[b'y'; 38]));
+        sys.bring_up(mp(m1));
+        if traffic1 && !sys.dead {
+            sys.apply(Ev::Start(p46(1)));
+            if let Some(a) = sys.ack_for(0, 0, "") {
+                sys.apply(Ev::Deliver(a));
+            }
+        }
+        if !sys.dead {
+            sys.apply(Ev::Eof);
+        }
+        if !sys.dead {
+            sys.events.push(format!("Reconnect (M1={:?} M2={:?})", m1, m2));
+            sys.classes.push("Reconnect".into());
+            sys.w.new_wire();
+            sys.m.new_wire();
+            sys.connect_with(
+                ConnectSpec::default(),
+                SPacket::Connack {
+                    session_present: false,
+                    reason: 0,
+                    props: mp(m2),
+                },
+            );
+        }
+        if !sys.dead {
+            sys.start_run();
+        }
+        if !sys.dead {
+            let spec = match kind {
+                0 => p46(0),
+                1 => p46(1),
+                2 => OpSpec::Publish(PublishSpec::simple(2, "t", &[b'z'; 8])), // 16 bytes
+                _ => OpSpec::Unsubscribe(UnsubscribeSpec::simple(&"f".repeat(39))), // 46 bytes
+            };
+            sys.apply(Ev::Start(spec));
+            let o = sys.m.ops.len() - 1;
+            for _ in 0..2 {
+                if let Some(a) = sys.ack_for(o, 0, "") {
+                    sys.apply(Ev::Deliver(a));
+                }
+            }
+            sys.apply(Ev::Start(OpSpec::Ping));
+            if !sys.dead && !sys.m.pings.is_empty() {
+                sys.apply(Ev::Deliver(SPacket::Pingresp));
+            }
+        }
+        sys.finish();
+        sys.m.hits.push("second-connection");
+        sys.report(ex, &["second-connection"]);
+    })
+}
+
 pub fn scenario(name: &str, params: &Value) -> Scenario {
+    if name == "C12/reconnect" {
+        return reconnect(name.to_string(), params.clone());
+    }
     let maxp = params["max_payload"].as_u64().unwrap_or(24) as usize;
     let params = params.clone();
     let name = name.to_string();
@@ -68,9 +136,38 @@ pub fn scenario(name: &str, params: &Value) -> Scenario {
                 ..Default::default()
             }),
         };
-        // its length by the reference encoder
+        let r1 = chz.choose(2) == 1;
+        let flavour = chz.choose(3) as u64;
+        let busy = chz.choose(2) == 1;
+        // Its length by the reference encoder. A SUBSCRIBE carries the subscription identifier the
+        // library chooses, whose encoding is 1-4 bytes long: learn it from a probe execution of the
+        // same history without any limit (allocation is a deterministic function of the history).
+        let mut learned_sub = None;
+        if kind == 3 {
+            let mut ps = Sys::new("C12", &name, chz);
+            ps.params = params.clone();
+            ps.m.check_client_acks = false;
+            ps.bring_up_fl(if r1 { vec![Prop::u16(P_RECEIVE_MAXIMUM, 1)] } else { vec![] }, flavour);
+            if busy {
+                ps.apply(Ev::Start(OpSpec::Ping));
+                ps.apply(Ev::Start(OpSpec::Subscribe(SubscribeSpec::simple("b"))));
+                ps.apply(Ev::Start(OpSpec::Unsubscribe(UnsubscribeSpec::simple("b"))));
+            }
+            ps.apply(Ev::Start(spec.clone()));
+            if ps.dead {
+                return ps.report(ex, &[]);
+            }
+            let o = ps.m.ops.len() - 1;
+            learned_sub = ps.m.ops[o].sub.and_then(|sb| ps.m.subs[sb].sub_id);
+            if learned_sub.is_none() {
+                panic!("harness: the probe run did not see the SUBSCRIBE");
+            }
+        }
         let probe = {
             let mut m = Model::new();
+            if let Some(id) = learned_sub {
+                m.next_sub_guess = id;
+            }
             let i = m.start(spec.clone());
             m.request_len(i, false)
         };
@@ -84,8 +181,6 @@ pub fn scenario(name: &str, params: &Value) -> Scenario {
             4 => Some(u32::MAX),
             _ => None,
         };
-        let r1 = chz.choose(2) == 1;
-        let flavour = chz.choose(3) as u64;
         // (the flavoured connection already carries these properties; a property must not repeat)
         let rich = flavour == 0 && chz.choose(2) == 1;
         let mut props = vec![];
@@ -110,7 +205,6 @@ pub fn scenario(name: &str, params: &Value) -> Scenario {
         sys.bring_up_fl(props, flavour);
         sys.events.push(format!("L={} M={:?} R1={}", l, m, r1));
         // other callers' requests are outstanding while the request under test is handled
-        let busy = chz.choose(2) == 1;
         let mut first = 0usize;
         if busy {
             sys.apply(Ev::Start(OpSpec::Ping));
@@ -120,6 +214,10 @@ pub fn scenario(name: &str, params: &Value) -> Scenario {
             if sys.dead {
                 return sys.report(ex, &[]);
             }
+        }
+        if kind == 3 {
+            // (the probe above told which subscription identifier this call will get)
+            sys.m.next_sub_guess = learned_sub.expect("harness: probe");
         }
         let hits_before = sys.m.hits.contains(&"max-packet-size-refusal");
         sys.apply(Ev::Start(spec.clone()));
